@@ -185,3 +185,9 @@ const (
 	hSHA384 = crypto.SHA384
 	hSHA512 = crypto.SHA512
 )
+
+type (
+	cryptoSigner     = crypto.Signer
+	cryptoPublicKey  = crypto.PublicKey
+	cryptoSignerOpts = crypto.SignerOpts
+)
